@@ -24,15 +24,122 @@ theorem unbindFun_noRef (r : Nat) (f : Fun) (s : State) (hf : f.ref = none) :
   | mem fid t => rfl
   | sref fid v => simp [Fun.ref] at hf
   | own fid v t => cases t <;> rfl
+  | nest fid v d => simp [Fun.ref] at hf
+
+/-- a functor that visits a slot variable (by reference or its bound copy): the parent link is taken back -/
+theorem unbindFun_ref (r : Nat) (f : Fun) (s : State) (v : Nat) (hf : f.ref = some v) :
+    unbindFun r f s = unsetParentIf v r s := by
+  cases f <;> simp [Fun.ref] at hf <;> subst hf <;> rfl
+
+theorem ref_trk_none {f : Fun} {v : Nat} (hf : f.ref = some v) : f.trk = none := by
+  cases f <;> simp [Fun.ref] at hf <;> rfl
 
 theorem inv_clearPar {s : State} (h : Inv s) (q r : Nat) : Inv (s.modRep q (clearPar r)) := by
   inv_auto h with [clearPar]
 
-theorem inv_fnNone_sref {s : State} (h : Inv s) {r fid v : Nat} {R : Rep} (hr : s.reps r = some R)
-    (hf : R.fn = some (.sref fid v))
+theorem inv_fnNone_ref {s : State} (h : Inv s) {r v : Nat} {R : Rep} {f : Fun} (hr : s.reps r = some R)
+    (hf : R.fn = some f) (hfv : f.ref = some v)
     (hp : ∀ q Q, repOf s v = some q → s.reps q = some Q → Q.parent ≠ some r) :
     Inv (s.modRep r fun R' => { R' with fn := none }) := by
-  inv_auto h
+  have hft := ref_trk_none hfv
+  -- the representations after the step, described without conditionals
+  have hnew : ∀ x X', (s.modRep r fun R' => { R' with fn := none }).reps x = some X' →
+      ∃ X, s.reps x = some X ∧ X'.parent = X.parent ∧ X'.cbs = X.cbs ∧ X'.call = X.call ∧
+        ((x ≠ r ∧ X'.fn = X.fn) ∨ (x = r ∧ X'.fn = none)) := by
+    intro x X' hx
+    rw [reps_modRep] at hx
+    by_cases hxr : x = r
+    · subst hxr; simp only [if_true, Option.map_eq_some_iff] at hx
+      obtain ⟨X, hX, rfl⟩ := hx
+      exact ⟨X, hX, rfl, rfl, rfl, .inr ⟨rfl, rfl⟩⟩
+    · rw [if_neg hxr] at hx; exact ⟨X', hx, rfl, rfl, rfl, .inl ⟨hxr, rfl⟩⟩
+  have hold : ∀ x X, s.reps x = some X → x ≠ r → (s.modRep r fun R' => { R' with fn := none }).reps x = some X := by
+    intro x X hX hxr; rw [reps_modRep, if_neg hxr]; exact hX
+  have hself : ∃ R0, (s.modRep r fun R' => { R' with fn := none }).reps r = some R0 ∧ R0.fn = none := by
+    rw [reps_modRep]; simp [hr]
+  have hown : ∀ w, Owned (s.modRep r fun R' => { R' with fn := none }) w → Owned s w := by
+    rintro w ⟨x, X', f', hX', hf', ho⟩
+    obtain ⟨X, hX, -, -, -, hc⟩ := hnew x X' hX'
+    rcases hc with ⟨-, hc⟩ | ⟨-, hc⟩
+    · exact ⟨x, X, f', hX, by rw [← hc]; exact hf', ho⟩
+    · rw [hc] at hf'; cases hf'
+  refine { repAlive := ?_, repUniq := ?_, connReg := ?_, cbsConn := ?_, regUniq := ?_, cbsNodup := ?_,
+           parentOk := ?_, trkReg := ?_, trkEnt := ?_, trkNodup := ?_, refOk := ?_, ownOk := ?_,
+           nestOk := ?_, anonBound := ?_, repBound := ?_ }
+  · intro w x hw; rw [repOf_modRep] at hw
+    obtain ⟨X, hX⟩ := h.repAlive w x hw
+    by_cases hxr : x = r
+    · subst hxr; obtain ⟨R0, hR0, -⟩ := hself; exact ⟨R0, hR0⟩
+    · exact ⟨X, hold x X hX hxr⟩
+  · intro v1 v2 x h1 h2; rw [repOf_modRep] at h1 h2; exact h.repUniq v1 v2 x h1 h2
+  · intro c w hc; rw [conns_modRep] at hc
+    obtain ⟨x, X, hX, hm, hor⟩ := h.connReg c w hc
+    have hor' : repOf (s.modRep r fun R' => { R' with fn := none }) w = some x ∨
+        Orphan (s.modRep r fun R' => { R' with fn := none }) x := by
+      unfold Orphan at *; simp only [repOf_modRep]; exact hor
+    by_cases hxr : x = r
+    · subst hxr
+      refine ⟨x, { X with fn := none }, ?_, hm, hor'⟩
+      rw [reps_modRep]; simp [hX]
+    · exact ⟨x, X, hold x X hX hxr, hm, hor'⟩
+  · intro x X' c hX' hm
+    obtain ⟨X, hX, -, hcb, -, -⟩ := hnew x X' hX'
+    obtain ⟨w, hw, hor⟩ := h.cbsConn x X c hX (by rw [← hcb]; exact hm)
+    refine ⟨w, by rw [conns_modRep]; exact hw, ?_⟩
+    unfold Orphan at *; simp only [repOf_modRep]; exact hor
+  · intro r1 R1 r2 R2 c h1 h2 m1 m2
+    obtain ⟨X1, hX1, -, hc1, -, -⟩ := hnew r1 R1 h1
+    obtain ⟨X2, hX2, -, hc2, -, -⟩ := hnew r2 R2 h2
+    exact h.regUniq r1 X1 r2 X2 c hX1 hX2 (by rw [← hc1]; exact m1) (by rw [← hc2]; exact m2)
+  · intro x X' hX'
+    obtain ⟨X, hX, -, hcb, -, -⟩ := hnew x X' hX'
+    rw [hcb]; exact h.cbsNodup x X hX
+  · intro x X' p w hX' hpar hw
+    rw [repOf_modRep] at hw
+    obtain ⟨X, hX, hpp, -, -, -⟩ := hnew x X' hX'
+    obtain ⟨P, f', hP, hPf, hfr⟩ := h.parentOk x X p w hX (by rw [← hpp]; exact hpar) hw
+    by_cases hpr : p = r
+    · subst hpr
+      rw [hr] at hP; cases hP
+      rw [hf] at hPf; cases hPf
+      rw [hfv] at hfr; cases hfr
+      exact absurd (by rw [← hpp]; exact hpar) (hp x X hw hX)
+    · exact ⟨P, f', hold p P hP hpr, hPf, hfr⟩
+  · intro x X' f' t hX' hf' ht
+    obtain ⟨X, hX, -, -, -, hc⟩ := hnew x X' hX'
+    rcases hc with ⟨-, hc⟩ | ⟨-, hc⟩
+    · obtain ⟨T, hT, hm⟩ := h.trkReg x X f' t hX (by rw [← hc]; exact hf') ht
+      exact ⟨T, by rw [trks_modRep]; exact hT, hm⟩
+    · rw [hc] at hf'; cases hf'
+  · intro t T x hT hm
+    rw [trks_modRep] at hT
+    obtain ⟨X, f', hX, hf', ht⟩ := h.trkEnt t T x hT hm
+    have hxr : x ≠ r := by
+      intro he; subst he; rw [hr] at hX; cases hX; rw [hf] at hf'; cases hf'; rw [hft] at ht; cases ht
+    exact ⟨X, f', hold x X hX hxr, hf', ht⟩
+  · intro t T hT; rw [trks_modRep] at hT; exact h.trkNodup t T hT
+  · intro x X' fid w hX' hf'
+    obtain ⟨X, hX, -, -, -, hc⟩ := hnew x X' hX'
+    rcases hc with ⟨-, hc⟩ | ⟨-, hc⟩
+    · obtain ⟨h1, h2, h3⟩ := h.refOk x X fid w hX (by rw [← hc]; exact hf')
+      exact ⟨h1, by rw [slots_modRep]; exact h2, fun ho => h3 (hown w ho)⟩
+    · rw [hc] at hf'; cases hf'
+  · intro x X' fid w t hX' hf'
+    obtain ⟨X, hX, -, -, -, hc⟩ := hnew x X' hX'
+    rcases hc with ⟨-, hc⟩ | ⟨-, hc⟩
+    · obtain ⟨h1, h2⟩ := h.ownOk x X fid w t hX (by rw [← hc]; exact hf')
+      exact ⟨h1, by rw [slots_modRep]; exact h2⟩
+    · rw [hc] at hf'; cases hf'
+  · intro x X' fid w d hX' hf'
+    obtain ⟨X, hX, -, -, -, hc⟩ := hnew x X' hX'
+    rcases hc with ⟨-, hc⟩ | ⟨-, hc⟩
+    · obtain ⟨h1, h2⟩ := h.nestOk x X fid w d hX (by rw [← hc]; exact hf')
+      exact ⟨h1, by rw [slots_modRep]; exact h2⟩
+    · rw [hc] at hf'; cases hf'
+  · intro w V hV hb; rw [slots_modRep] at hV; rw [nextRep_modRep]; exact h.anonBound w V hV hb
+  · intro x X' hX'
+    obtain ⟨X, hX, -⟩ := hnew x X' hX'
+    rw [nextRep_modRep]; exact h.repBound x X hX
 
 theorem inv_dropFn {s : State} (h : Inv s) {r : Nat} {R : Rep} {f : Fun} (hr : s.reps r = some R)
     (hf : R.fn = some f) : Inv (dropFn r R f s) := by
@@ -44,17 +151,14 @@ theorem inv_dropFn {s : State} (h : Inv s) {r : Nat} {R : Rep} {f : Fun} (hr : s
     | none => simp only []; inv_auto h
     | some t => simp only []; inv_auto h with [mem_remEntry, remEntry_nodup]
   | some v =>
-    obtain ⟨fid, rfl⟩ : ∃ fid, f = .sref fid v := by
-      cases f <;> simp [Fun.ref] at hfr
-      subst hfr; exact ⟨_, rfl⟩
-    rw [unbindFun_sref, unsetParentIf_eq, repOf_setRep]
+    rw [unbindFun_ref _ _ _ v hfr, unsetParentIf_eq, repOf_setRep]
     have h1 : Inv (s.setRep r (some { R with call := false })) := inv_setRep_call h hr false
     have hr1 : (s.setRep r (some { R with call := false })).reps r = some { R with call := false } := by
       simp [reps_setRep]
     cases hq : repOf s v with
     | none =>
       simp only []
-      refine inv_fnNone_sref h1 hr1 hf ?_
+      refine inv_fnNone_ref h1 hr1 hf hfr ?_
       intro q Q hq'; rw [repOf_setRep, hq] at hq'; simp at hq'
     | some q =>
       simp only []
@@ -62,7 +166,7 @@ theorem inv_dropFn {s : State} (h : Inv s) {r : Nat} {R : Rep} {f : Fun} (hr : s
       cases hx : ((s.setRep r (some { R with call := false })).modRep q (clearPar r)).reps r with
       | none => simp [reps_modRep, reps_setRep] at hx; grind
       | some X =>
-        refine inv_fnNone_sref (fid := fid) (v := v) h2 hx ?_ ?_
+        refine inv_fnNone_ref (f := f) (v := v) h2 hx ?_ hfr ?_
         · simp only [reps_modRep, reps_setRep] at hx; grind [clearPar]
         · intro q' Q' hq' hQ'
           simp only [repOf_modRep, repOf_setRep, hq, Option.some.injEq] at hq'
@@ -102,9 +206,9 @@ theorem Casc.refl (s : State) : Casc s s := by
   constructor <;> grind
 
 theorem Casc.owned {s s' : State} (h : Casc s s') {v : Nat} (ho : Owned s' v) : Owned s v := by
-  obtain ⟨r, R', fid, t, hr, hf⟩ := ho
+  obtain ⟨r, R', f, hr, hf, hfo⟩ := ho
   obtain ⟨R, hR, hfn, -⟩ := h.reps r R' hr
-  exact ⟨r, R, fid, t, hR, by grind⟩
+  exact ⟨r, R, f, hR, by grind, hfo⟩
 
 theorem Casc.pinned {s s' : State} (h : Casc s s') {v : Nat} (ho : Pinned s' v) : Pinned s v := by
   obtain ⟨r, R', fid, hr, hf⟩ := ho
@@ -199,6 +303,11 @@ theorem casc_unbindFun {s : State} (r : Nat) (f : Fun)
     cases t with
     | none => exact Casc.refl s
     | some t => exact casc_trkRemove t r hn
+  | nest fid v d =>
+    rw [unbindFun_ref _ _ _ v rfl, unsetParentIf_eq]
+    split
+    · exact Casc.refl s
+    · exact casc_clearPar s _ r
 
 theorem casc_dropFn {s : State} {r : Nat} {R : Rep} {f : Fun} (hr : s.reps r = some R)
     (hn : ∀ t T, s.trks t = some T → (T.entries.map Prod.fst).Nodup) : Casc s (dropFn r R f s) := by
